@@ -178,3 +178,23 @@ Definition trap_weights_v (fixed modb bnd : bool) (np npwb lo up : nat) (s e : Q
    |x - bound| <= 1e-8 * |b - a| everywhere). ---- *)
 Definition touch_tol (x bound a b : Qc) : bool :=
   Qc_leb (Qc_abs (x - bound)) (Q2Qc (1 # 100000000) * Qc_abs (b - a)).
+
+(* ---- LejaGrid1D.compute_1D_quad_weights (Grid.py): V[i, j] = eval_sh_legendre(j, x_i) * sqrt(2j + 1), weights = inv(V)[0, :],
+   i.e. the row vector w with  sum_i w_i V[i, j] = [j = 0]:  sum_i w_i P_j(x_i) = [j = 0]  (the column scaling sqrt(2j+1) drops out,
+   sqrt 1 = 1).  P_j = shifted Legendre polynomials on [0, 1] by their three-term recurrence
+   (j + 1) P_{j+1} = (2j + 1)(2x - 1) P_j - j P_{j-1}. ---- *)
+Fixpoint shleg_from (j : nat) (pj pj1 : poly) (n : nat) : list poly :=
+  match n with
+  | O => []
+  | S n' => pj :: shleg_from (S j) pj1
+              (pscale (/ qn (S (S j))) (padd (pscale (qn (2 * S j + 1)) (lmul (qn 2) (-(1)) pj1)) (pscale (- qn (S j)) pj))) n'
+  end.
+(* P_0 .. P_{n-1} *)
+Definition shleg_list (n : nat) : list poly := shleg_from 0 [1] [-(1); qn 2] n.
+
+(* residuals of the system the code solves, for nodes / weights on the reference interval [0, 1] *)
+Definition leja_system_residuals (xs ws : list Qc) : list Qc :=
+  map (fun jp => dotQ (map (PolyInt.peval (snd jp)) xs) ws - (if (fst jp =? 0)%nat then 1 else 0))
+      (combine (seq 0 (length xs)) (shleg_list (length xs))).
+Definition leja_system_ok (xs ws : list Qc) (tol : Qc) : bool :=
+  (length xs =? length ws)%nat && forallb (fun r => Qc_leb (Qc_abs r) tol) (leja_system_residuals xs ws).
